@@ -1444,12 +1444,12 @@ int radsrv(struct request *rq) {
     debug(DBG_DBG, "radsrv: code %d, id %d", msg->code, msg->id);
     if (msg->code == RAD_Disconnect_Request) {
         debug(DBG_INFO, "radsrv: disconnect-request not supported");
-        respond(rq, RAD_Disconnect_NAK, maketlv(RAD_Attr_Error_Cause, sizeof(RAD_Err_Unsupported_Extension), &(int){RAD_Err_Unsupported_Extension}), 1);
+        respond(rq, RAD_Disconnect_NAK, maketlv(RAD_Attr_Error_Cause, sizeof(uint32_t), &(uint32_t){htonl(RAD_Err_Unsupported_Extension)}), 1);
         goto exit;
     }
     if (msg->code == RAD_CoA_Request) {
         debug(DBG_INFO, "radsrv: CoA-request not supported");
-        respond(rq, RAD_CoA_NAK, maketlv(RAD_Attr_Error_Cause, sizeof(RAD_Err_Unsupported_Extension), &(int){RAD_Err_Unsupported_Extension}), 1);
+        respond(rq, RAD_CoA_NAK, maketlv(RAD_Attr_Error_Cause, sizeof(uint32_t), &(uint32_t){htonl(RAD_Err_Unsupported_Extension)}), 1);
         goto exit;
     }
     if (msg->code != RAD_Access_Request && msg->code != RAD_Status_Server && msg->code != RAD_Accounting_Request) {
